@@ -501,6 +501,15 @@ for _n in ('observe_bool', 'observe_i64', 'observe_u64', 'observe_usize', 'obser
     INTRINSICS[_n] = _observe
 
 
+@intrinsic('bound')
+def _bound(E, ci, q, t):
+    v = t.v if getattr(E, 'tier', 'quick') == 'thorough' else q.v
+    import os
+    v = max(0, v + int(os.environ.get('BOUND_DELTA', '0')))    # development aid only
+    E.inputs.append(('bound', 'b', v))
+    return USZ(v)
+
+
 @intrinsic('hex')
 def _hexi(E, ci, b):
     raise ModelGap('sym::hex is native-only')
